@@ -77,3 +77,27 @@ fn c06_aligned_bufsize_wrap() {
     assert!(eff >= buffer_size);
     kani::cover!(buffer_size > usize::MAX - 7, "checked_add overflows");
 }
+
+// ---------------------------------------------------------------- E5 models used by parser-level harnesses
+// (each is checked against the real function by its own harness: c17_parse_name_*, c17_write_response_*)
+
+/// Cheap stand-in for `ProtocolVariables::parse_name`: the three queryable names are modelled by the
+/// one-byte names "A", "B", "C" (any other name is unknown).  The parsers treat parse_name as a black box.
+pub(crate) fn parse_name_model(name: &[u8]) -> Result<protocol::ProtocolVariables, protocol::Error> {
+    if name.len() == 1 {
+        match name[0] {
+            b'A' => return Ok(protocol::ProtocolVariables::FCGI_MAX_CONNS),
+            b'B' => return Ok(protocol::ProtocolVariables::FCGI_MAX_REQS),
+            b'C' => return Ok(protocol::ProtocolVariables::FCGI_MPXS_CONNS),
+            _ => {}
+        }
+    }
+    Err(protocol::Error::UnknownVariable)
+}
+
+pub(crate) const WR_MODEL_LEN: usize = 4;
+/// Cheap stand-in for `ProtocolVariables::write_response`: appends [0xFA, bits, max_conns as u8, 0xFB].
+pub(crate) fn write_response_model<V: ext::BytesVec>(vars: protocol::ProtocolVariables, out: &mut V, config: &Config) -> usize {
+    out.extend_from_slice(&[0xFA, vars.bits(), config.max_conns.get() as u8, 0xFB]);
+    WR_MODEL_LEN
+}
